@@ -227,10 +227,15 @@ class CouplingLevyCopulaSimulation:
                 )
             )
 
-    def _coupling_states_for_a_slice(self, slice_fine_states: np.array):
+    def _coupling_states_for_a_slice(self, slice_fine_states: np.array, start=None):
+        """running values of the coarse component over one time interval, from `start` (the value reached at the end of
+        the previous interval; the origin by default)"""
         if len(slice_fine_states):
             slice_coupling_values = [None] * len(slice_fine_states)
-            current_value = np.array(self.coupling_process.grid.origin)
+            current_value = np.array(
+                self.coupling_process.grid.origin if start is None else start,
+                dtype=float,
+            )
             for k, deltaFineState in enumerate(slice_fine_states):
                 current_value += self.__coupling_state(deltaFineState)
                 slice_coupling_values[k] = current_value.copy()
@@ -263,15 +268,19 @@ class CouplingLevyCopulaSimulationFixedTimes(CouplingLevyCopulaSimulation):
         fines_states_values = np.zeros(shape=(dim, len(fine_states_increments) + 1))
         coarse_states_values = np.zeros(shape=(dim, len(fine_states_increments) + 1))
 
+        # both components are running sums over the whole path: an interval starts from the values reached before
+        fine_value = coarse_value = np.zeros(dim)
         for k, (slice_fine_states, slice_fine_values) in enumerate(
             zip(fine_states_increments, fines_states_allvalues)
         ):
             if len(slice_fine_states):
                 slice_coarse_values = self._coupling_states_for_a_slice(
-                    slice_fine_states
+                    slice_fine_states, start=coarse_value
                 )
-                fines_states_values[:, k + 1] = slice_fine_values[-1]
-                coarse_states_values[:, k + 1] = slice_coarse_values[-1]
+                fine_value = slice_fine_values[-1]
+                coarse_value = slice_coarse_values[-1]
+            fines_states_values[:, k + 1] = fine_value
+            coarse_states_values[:, k + 1] = coarse_value
 
         return fines_states_values, coarse_states_values
 
@@ -328,16 +337,21 @@ class CouplingLevyCopulaSimulationWithJumpTimes(CouplingLevyCopulaSimulation):
         fine_states_increments = fine_mc.states_increments
         fines_states_allvalues = fine_mc.values
         jump_times = fine_mc.times
-        coarse_states_values = np.empty_like(fines_states_allvalues)
+        coarse_states_values = [
+            np.empty(shape=(0, self._dimension)) for _ in fines_states_allvalues
+        ]
 
+        # the coarse component is a running sum over the whole path: an interval starts from the value reached before
+        coarse_value = np.zeros(self._dimension)
         for k, (slice_fine_states, slice_fine_values) in enumerate(
             zip(fine_states_increments, fines_states_allvalues)
         ):
             if len(slice_fine_states):
                 slice_coarse_values = self._coupling_states_for_a_slice(
-                    slice_fine_states
+                    slice_fine_states, start=coarse_value
                 )
-                coarse_states_values[k] = slice_coarse_values
+                coarse_value = slice_coarse_values[-1]
+                coarse_states_values[k] = np.array(slice_coarse_values)
 
         fines_states_values = np.concatenate(fines_states_allvalues).T
         coarse_states_values = np.concatenate(coarse_states_values).T
